@@ -37,9 +37,11 @@ def cfg_back_edges(fn: Any) -> tuple:
     from mypyc.ir.ops import ControlOp
 
     succ: dict = {}
+    inblocks = set(fn.blocks)
     for b in fn.blocks:
         t = b.ops[-1]
-        succ[b] = list(t.targets()) if isinstance(t, ControlOp) else []
+        # a target that is not a block of the function (dead code already dropped) is no successor
+        succ[b] = [x for x in t.targets() if x in inblocks] if isinstance(t, ControlOp) else []
     back: set = set()
     color: dict = {}
     u = fn.blocks[0]
@@ -151,6 +153,7 @@ def check_function(fn: Any, K: int = 2, timeout_ms: int = 20000) -> dict:
     fresh = [0]
     branch_vars: list = []
     decomposed: set = set()
+    opflags: dict = {}
 
     def newbool(tag: str) -> Any:
         fresh[0] += 1
@@ -200,6 +203,8 @@ def check_function(fn: Any, K: int = 2, timeout_ms: int = 20000) -> dict:
             if isinstance(op, Branch):
                 if op.op == Branch.IS_ERROR and op.value in state:
                     cv = state[op.value][1]
+                elif op.op == Branch.IS_ERROR and (op.value, c) in opflags:
+                    cv = opflags[(op.value, c)]
                 elif op.op == Branch.IS_ERROR:
                     cv = z3.Bool(f"iserr_L{idx[b]}_{c}")
                 else:
@@ -263,9 +268,17 @@ def check_function(fn: Any, K: int = 2, timeout_ms: int = 20000) -> dict:
                     o, _ = state[op]
                     state[op] = (o + 1, z3.BoolVal(False))
                 continue
+            ek = getattr(op, "error_kind", ERR_NEVER)
+            e = z3.Bool(f"err_{vname(op, names)}_{c}") if (ek == ERR_MAGIC and not op.is_void) else z3.BoolVal(False)
+            if ek == ERR_MAGIC and not op.is_void:
+                opflags[(op, c)] = e
+            # out-parameters: a register whose address is passed to a call receives an owned
+            # reference from the callee unless the call fails (CPy_YieldFromErrorHandle & co.)
+            for a_ in op.sources():
+                if type(a_).__name__ == "LoadAddress" and isinstance(getattr(a_, "src", None), Register) and a_.src in state:
+                    o_, _ = state[a_.src]
+                    state[a_.src] = (o_ + z3.If(e, 0, 1), e)
             if op in state:
-                ek = getattr(op, "error_kind", ERR_NEVER)
-                e = z3.Bool(f"err_{vname(op, names)}_{c}") if ek == ERR_MAGIC else z3.BoolVal(False)
                 o, _ = state[op]
                 if op.is_borrowed:
                     state[op] = (o, e)
@@ -318,6 +331,7 @@ def simulate(fn: Any, decisions: dict, K: int = 2, max_steps: int = 5000) -> lis
     _, back_edges = cfg_back_edges(fn)
     own: dict = {}
     err: dict = {}
+    opflag: dict = {}
     problems: list = []
 
     def rc(v: Any) -> bool:
@@ -356,7 +370,12 @@ def simulate(fn: Any, decisions: dict, K: int = 2, max_steps: int = 5000) -> lis
                 break
             if isinstance(op, Branch):
                 if op.op == Branch.IS_ERROR:
-                    cv = err.get(op.value, False) if rc(op.value) else decisions.get(f"iserr_L{idx[b]}_{c}", False)
+                    if rc(op.value):
+                        cv = err.get(op.value, False)
+                    elif op.value in opflag:
+                        cv = opflag[op.value]
+                    else:
+                        cv = decisions.get(f"iserr_L{idx[b]}_{c}", False)
                 else:
                     cv = decisions.get(f"br_L{idx[b]}_{c}", False)
                 if op.negated:
@@ -397,8 +416,15 @@ def simulate(fn: Any, decisions: dict, K: int = 2, max_steps: int = 5000) -> lis
                 give(op, 1)
                 err[op] = False
                 continue
+            e = decisions.get(f"err_{vname(op, names)}_{c}", False) if (getattr(op, "error_kind", 0) == ERR_MAGIC and not op.is_void) else False
+            if getattr(op, "error_kind", 0) == ERR_MAGIC and not op.is_void:
+                opflag[op] = e
+            for a_ in op.sources():
+                if type(a_).__name__ == "LoadAddress" and isinstance(getattr(a_, "src", None), Register) and rc(a_.src):
+                    if not e:
+                        give(a_.src, 1)
+                    err[a_.src] = e
             if rc(op):
-                e = decisions.get(f"err_{vname(op, names)}_{c}", False) if getattr(op, "error_kind", 0) == ERR_MAGIC else False
                 err[op] = e
                 if not op.is_borrowed and not e:
                     give(op, 1)
